@@ -399,6 +399,7 @@ def r7(ctx):
 
 
 def run(ctx):
+    scan_rule(ctx, "C07")
     r7(ctx)
     r6(ctx)
     r1(ctx)
